@@ -9,6 +9,7 @@ import (
 	"os"
 	"sort"
 	"strings"
+	"sync"
 	"time"
 
 	"perkeep.org/pkg/blob"
@@ -37,6 +38,7 @@ type runner struct {
 	// believed: ranks acknowledged as uploaded and not removed since. Used ONLY to choose inputs (a
 	// long poll on an empty store costs a full second), never to judge a reply.
 	believed   map[int]bool
+	hc         *memHaveCache // via "clienthc" only
 	slowBudget int
 	opIndex    int
 }
@@ -110,7 +112,7 @@ func (r *runner) reset() {
 		sizes[i] = len(b.Data)
 		kinds[i] = b.Kind
 	}
-	r.lg.Emit(gate.Event{"ev": "reset", "cfg": r.cfg, "via": r.via, "root": map[bool]string{true: "bs", false: "root"}[r.rootName == "/bs"], "leg": r.leg, "h": r.hi,
+	r.lg.Emit(gate.Event{"ev": "reset", "cfg": r.cfg, "via": r.wireVia(), "cl": r.via, "root": map[bool]string{true: "bs", false: "root"}[r.rootName == "/bs"], "leg": r.leg, "h": r.hi,
 		"sizes": sizes, "kinds": kinds, "canRemove": false, "readOnly": false, "subfetch": "no", "pre": []any{}})
 }
 
@@ -126,7 +128,7 @@ func fill(ev gate.Event) gate.Event {
 
 func (r *runner) emit(ev gate.Event) gate.Event {
 	ev["ev"] = "op"
-	ev["via"] = r.via
+	ev["via"] = r.wireVia()
 	// promptness is part of the protocol only for long polls (maxwaitsec > 0)
 	if !(ev["op"] == "enumwait" || ev["op"] == "enum" && ev["wait"] == 2) {
 		ev["fast"] = true
@@ -198,6 +200,7 @@ func (r *runner) xremove(ranks []int) {
 	if !r.srv.canSide {
 		return
 	}
+	r.hc.forget(r.refs(ranks))
 	err := r.srv.side.RemoveBlobs(context.Background(), r.refs(ranks))
 	ev := gate.Event{"ev": "xremove", "bs": intsAny(ranks), "res": classify(err)}
 	if err != nil {
@@ -232,9 +235,51 @@ func (r *runner) play(h []Op, observe bool) {
 	}
 }
 
+// isClient: the history goes through pkg/client ("clienthc": a fresh client that has a have-cache, as pk-put's).
+func (r *runner) isClient() bool { return r.via == "client" || r.via == "clienthc" }
+
+// wireVia is the protocol client class the trace specification knows ("client" or "raw").
+func (r *runner) wireVia() string {
+	if r.isClient() {
+		return "client"
+	}
+	return r.via
+}
+
+// memHaveCache is a client.HaveCache kept in memory. The harness forgets an entry when the blob is removed
+// (by the history or through the side door): the cache promises nothing about blobs removed behind its back.
+type memHaveCache struct {
+	mu sync.Mutex
+	m  map[blob.Ref]uint32
+}
+
+func (c *memHaveCache) StatBlobCache(br blob.Ref) (uint32, bool) {
+	c.mu.Lock()
+	defer c.mu.Unlock()
+	size, ok := c.m[br]
+	return size, ok
+}
+
+func (c *memHaveCache) NoteBlobExists(br blob.Ref, size uint32) {
+	c.mu.Lock()
+	defer c.mu.Unlock()
+	c.m[br] = size
+}
+
+func (c *memHaveCache) forget(refs []blob.Ref) {
+	if c == nil {
+		return
+	}
+	c.mu.Lock()
+	defer c.mu.Unlock()
+	for _, br := range refs {
+		delete(c.m, br)
+	}
+}
+
 // do executes one abstract operation through the runner's client and logs its event(s).
 func (r *runner) do(op Op) []gate.Event {
-	if r.via == "client" {
+	if r.isClient() {
 		return r.doClient(op)
 	}
 	return r.doRaw(op)
@@ -381,6 +426,7 @@ func (r *runner) doClient(op Op) []gate.Event {
 			}
 		}
 		out := []gate.Event{r.emit(ev)}
+		r.hc.forget(r.refs(op.Bs))
 		r.xremove(op.Bs)
 		return out
 	}
@@ -466,7 +512,7 @@ func (r *runner) doRaw(op Op) []gate.Event {
 func (r *runner) observe() {
 	all := r.allRanks()
 	n := len(all)
-	if r.via == "client" {
+	if r.isClient() {
 		r.do(Op{Op: "stat", Bs: all})
 		for _, k := range all {
 			r.do(Op{Op: "fetch", B: k})
@@ -523,7 +569,7 @@ func (r *runner) extras() {
 	all := r.allRanks()
 	n := len(all)
 	r.slowBudget = 1
-	if r.via == "client" {
+	if r.isClient() {
 		r.do(Op{Op: "enumall"})
 		r.do(Op{Op: "enumwait"}) // empty store: may take the whole second
 		for i, k := range all {
@@ -610,7 +656,7 @@ func (r *runner) big(direct int) {
 		}
 		r.srv.takeHub()
 		pre := intsAny(all)
-		r.lg.Emit(gate.Event{"ev": "reset", "cfg": r.cfg, "via": r.via, "root": map[bool]string{true: "bs", false: "root"}[r.rootName == "/bs"], "leg": r.leg, "h": r.hi,
+		r.lg.Emit(gate.Event{"ev": "reset", "cfg": r.cfg, "via": r.wireVia(), "cl": r.via, "root": map[bool]string{true: "bs", false: "root"}[r.rootName == "/bs"], "leg": r.leg, "h": r.hi,
 			"sizes": func() []any {
 				s := make([]any, n)
 				for i, b := range r.u.Blobs {
@@ -634,7 +680,7 @@ func (r *runner) big(direct int) {
 			r.do(Op{Op: "receive", B: k, Src: i % 3})
 		}
 	}
-	if r.via == "client" {
+	if r.isClient() {
 		r.do(Op{Op: "enumall"})
 		r.do(Op{Op: "enumwait"})
 		r.do(Op{Op: "enum", After: 0, Limit: n/2 + 1})
